@@ -4,63 +4,137 @@
  * times, so their proof is by loop contract (hooks/C17_halfagg_loops.diff).  A loop contract forgets
  * everything the loop assigns, including ghost call logs, so wiring is checked INSIDE each iteration:
  * the harness publishes its expectations in ghost variables the code never assigns (c17_aggsig, ...),
- * every oracle contract compares what it was handed against them and raises the STICKY flag
- * verif_c17_bad on a mismatch; the loop invariant says the flag is still 0.  Likewise
- * verif_c17_rej is raised when an oracle verdict was "reject"; the invariant says no iteration
- * continued after one.  These clauses constrain ghost variables only.
+ * every replaced callee compares what it was handed against them and raises the STICKY flag
+ * verif_c17_bad on a mismatch; the loop invariants say the flag is still 0.  Likewise verif_c17_rej is
+ * raised when an oracle verdict was "reject"; the invariant says no iteration continued after one.
+ * All of these clauses constrain ghost variables only.
  *
  * ASSUMED (algebraic residue): secp256k1_ge_set_xo_var (lift_x verdict), secp256k1_gej_add_ge_var,
- * secp256k1_gej_add_var (group law), plus ecmult / ecmult_gen / scalar_mul from assumed.h.
- * secp256k1_schnorrsig_challenge: body proved in C02.challenge; here frame + scalar_ok + wiring flag. */
+ * secp256k1_gej_add_var (group law), secp256k1_ecmult, secp256k1_scalar_mul, and ecmult_gen from assumed.h.
+ * secp256k1_schnorrsig_challenge: body proved in C02.challenge / C02.challenge_frame; here frame +
+ * scalar_ok + wiring flag.
+ * secp256k1_sha256_write / _finalize: the stream contracts of hash_log.h (same requires, same
+ * non-ghost frame and effect: hash->bytes += len; *hash and out32 otherwise arbitrary) with a ghost
+ * part in the sticky-flag style: one watched stream position verif_c17_wpos of the RUNNING hash
+ * (positions are the object's own byte counter, so the copy that gets finalized continues the same
+ * stream), expected byte verif_c17_wexp.
+ * secp256k1_schnorrsig_sha256_tagged_aggregation: replaced by "state := the HalfAgg/randomizer
+ * midstate, 64 bytes absorbed" + call counter (the constant itself is proved in C02.midstates). */
 #ifndef VERIF_ASSUMED_C17_H
 #define VERIF_ASSUMED_C17_H
+/* assumed.h also carries (log-style) contracts for ecmult and scalar_mul; this file attaches its own
+ * sticky-flag versions, so the shared declarations are parked under unused names */
+#define LOG_ECMULT_GEN
+#define secp256k1_ecmult c17_unused_assumed_h_ecmult
+#define secp256k1_scalar_mul c17_unused_assumed_h_scalar_mul
 #include "assumed.h"
-#include "hash_log.h"
+#undef secp256k1_ecmult
+#undef secp256k1_scalar_mul
 
 /* expectations published by the harness; never assigned by code or contracts */
-const unsigned char *c17_aggsig, *c17_msgs; const secp256k1_xonly_pubkey *c17_pks; size_t c17_n;
+const unsigned char *c17_aggsig, *c17_msgs, *c17_sigs; const secp256k1_xonly_pubkey *c17_pks; size_t c17_n, c17_nb;
+int c17_mode;                     /* 0 = aggverify, 1 = inc_aggregate */
 /* ghost state named by the loop invariants in /repo (declared extern there) */
-size_t verif_c17_xo_n;            /* lift_x oracle calls so far == index of the current signature + 1 */
+size_t verif_c17_xo_n;            /* lift_x oracle calls so far */
+size_t verif_c17_fin_n;           /* finalize calls so far == randomizers derived so far */
 int verif_c17_bad, verif_c17_rej; /* sticky: wiring mismatch seen / reject verdict seen */
-size_t verif_c17_gk; int verif_c17_gk_ok; /* ghost index and the harness-computed spec verdict "r_gk < p" for it; never assigned */
-size_t verif_c17_gb; unsigned char verif_c17_gb_exp; /* ghost byte index into the output aggregate and the harness-computed expected byte there; never assigned */
-/* other ghost logs */
-int c17_last_inf; secp256k1_scalar c17_e;
+size_t verif_c17_gk; int verif_c17_gk_ok;   /* ghost signature index and the harness-computed spec verdict "r_gk < p"; never assigned */
+size_t verif_c17_gb; unsigned char verif_c17_gb_exp; /* ghost byte index into the output aggregate and the expected byte there; never assigned */
+uint64_t verif_c17_wpos; unsigned char verif_c17_wexp; /* watched position of the running hash stream and the expected byte there; never assigned */
+int verif_c17_whit;               /* sticky: the watched position has been written */
+/* logs that live within one iteration / after the loops */
+int c17_last_inf, c17_phase, c17_init_n; secp256k1_scalar c17_e; unsigned char c17_dig[32]; secp256k1_gej c17_em_r;
 
 #ifndef VERIF_NATIVE
 static inline wide c17_le256(const unsigned char *b) { wide v = 0; int i; for (i = 31; i >= 0; i--) v = (v << 8) | W(b[i]); return v; }
-#define C17_K (verif_c17_xo_n - 1)   /* index of the signature being processed, valid after the lift call of the iteration */
-#define C17_XO_OK(x, odd, k) ((odd) == 0 && (k) < c17_n && fe_canon(x) && fval(x) == be256(c17_aggsig + 32 * (k)))
-#define C17_CH_OK(r32, msg, msglen, pk32) (verif_c17_xo_n >= 1 && C17_K < c17_n && (r32) == c17_aggsig + 32 * C17_K && (msg) == c17_msgs + 32 * C17_K && (msglen) == 32 && \
+static inline wide c17_redn(wide v) { wide n = N_(); return v >= n ? v - n : v; }
+#define C17_K (verif_c17_fin_n - 1)   /* index (relative to the first new signature) of the signature being processed, valid after the finalize of the iteration */
+#define C17_XO_OK(x, odd) ((odd) == 0 && verif_c17_fin_n >= 1 && C17_K < c17_n && fe_canon(x) && fval(x) == be256(c17_aggsig + 32 * C17_K))
+#define C17_CH_OK(r32, msg, msglen, pk32) (verif_c17_fin_n >= 1 && C17_K < c17_n && (r32) == c17_aggsig + 32 * C17_K && (msg) == c17_msgs + 32 * C17_K && (msglen) == 32 && \
     be256(pk32) == c17_le256(c17_pks[C17_K].data))
+#ifdef C17_EXP_LIGHT   /* experiment only */
+#undef C17_XO_OK
+#undef C17_CH_OK
+#define C17_XO_OK(x, odd) 1
+#define C17_CH_OK(a,b,c,d) 1
+#endif
+#define C17_UPD(flag, cond) (flag == ((__CPROVER_old(flag) != 0 || (cond)) ? 1 : 0))
+#define C17_COVERS (__CPROVER_old(hash->bytes) <= verif_c17_wpos && verif_c17_wpos < __CPROVER_old(hash->bytes) + len)
+#define C17_EXP_END (c17_mode == 0 ? 64 + 96 * ((uint64_t)__CPROVER_old(verif_c17_fin_n) + 1) : 64 + 96 * ((uint64_t)c17_nb + (uint64_t)__CPROVER_old(verif_c17_fin_n) + 1))
 #endif
 
+static void secp256k1_schnorrsig_sha256_tagged_aggregation(secp256k1_sha256 *sha)
+__CPROVER_requires(__CPROVER_w_ok(sha, sizeof(*sha)))
+__CPROVER_assigns(*sha, c17_init_n)
+__CPROVER_ensures(sha->bytes == 64 && sha->s[0] == 0xd11f5532ul && sha->s[1] == 0xfa57f70ful && sha->s[2] == 0x5db0d728ul && sha->s[3] == 0xf806ffe1ul &&
+                  sha->s[4] == 0x1d4db069ul && sha->s[5] == 0xb4d587e1ul && sha->s[6] == 0x50451c2aul && sha->s[7] == 0x10fb63e9ul)
+__CPROVER_ensures(c17_init_n == __CPROVER_old(c17_init_n) + 1)
+;
+static void secp256k1_sha256_write(const secp256k1_hash_ctx *hash_ctx, secp256k1_sha256 *hash, const unsigned char *data, size_t len)
+__CPROVER_requires(__CPROVER_rw_ok(hash, sizeof(*hash)) && (len == 0 || __CPROVER_r_ok(data, len)) && hash_ctx != NULL)
+__CPROVER_requires(hash->bytes + len >= len)
+__CPROVER_assigns(*hash, verif_c17_bad, verif_c17_whit)
+__CPROVER_ensures(hash->bytes == __CPROVER_old(hash->bytes) + len)
+__CPROVER_ensures(C17_UPD(verif_c17_whit, C17_COVERS))
+__CPROVER_ensures(C17_UPD(verif_c17_bad, C17_COVERS && data[verif_c17_wpos - __CPROVER_old(hash->bytes)] != verif_c17_wexp))
+;
+#define C17_D4(i) c17_dig[i] == out32[i] && c17_dig[i+1] == out32[i+1] && c17_dig[i+2] == out32[i+2] && c17_dig[i+3] == out32[i+3]
+static void secp256k1_sha256_finalize(const secp256k1_hash_ctx *hash_ctx, secp256k1_sha256 *hash, unsigned char *out32)
+__CPROVER_requires(__CPROVER_rw_ok(hash, sizeof(*hash)) && __CPROVER_w_ok(out32, 32) && hash_ctx != NULL)
+__CPROVER_assigns(*hash, __CPROVER_object_upto(out32, 32), verif_c17_fin_n, verif_c17_bad, c17_dig)
+__CPROVER_ensures(verif_c17_fin_n == __CPROVER_old(verif_c17_fin_n) + 1)
+__CPROVER_ensures(C17_D4(0) && C17_D4(4) && C17_D4(8) && C17_D4(12) && C17_D4(16) && C17_D4(20) && C17_D4(24) && C17_D4(28))
+__CPROVER_ensures(C17_UPD(verif_c17_bad, __CPROVER_old(hash->bytes) != C17_EXP_END))
+;
 static int secp256k1_ge_set_xo_var(secp256k1_ge *r, const secp256k1_fe *x, int odd)
 __CPROVER_requires(__CPROVER_w_ok(r, sizeof(*r)) && __CPROVER_r_ok(x, sizeof(*x)) && fe_mag(x, 4))
 __CPROVER_assigns(*r, verif_c17_xo_n, verif_c17_bad, verif_c17_rej)
 __CPROVER_ensures(__CPROVER_return_value == 0 || __CPROVER_return_value == 1)
 __CPROVER_ensures(__CPROVER_return_value == 1 ==> (ge_ok1(r) && r->infinity == 0))
 __CPROVER_ensures(verif_c17_xo_n == __CPROVER_old(verif_c17_xo_n) + 1)
-__CPROVER_ensures(verif_c17_bad == ((__CPROVER_old(verif_c17_bad) != 0 || !C17_XO_OK(x, odd, __CPROVER_old(verif_c17_xo_n))) ? 1 : 0))
-__CPROVER_ensures(verif_c17_rej == ((__CPROVER_old(verif_c17_rej) != 0 || __CPROVER_return_value == 0) ? 1 : 0))
+__CPROVER_ensures(C17_UPD(verif_c17_bad, !C17_XO_OK(x, odd) || verif_c17_xo_n != verif_c17_fin_n))
+__CPROVER_ensures(C17_UPD(verif_c17_rej, __CPROVER_return_value == 0))
 ;
-#ifndef C17_NO_CHALLENGE_CONTRACT
 static void secp256k1_schnorrsig_challenge(const secp256k1_hash_ctx *hash_ctx, secp256k1_scalar* e, const unsigned char *r32, const unsigned char *msg, size_t msglen, const unsigned char *pubkey32)
 __CPROVER_requires(hash_ctx != NULL && __CPROVER_w_ok(e, sizeof(*e)) && __CPROVER_r_ok(r32, 32) && __CPROVER_r_ok(pubkey32, 32) && (msglen == 0 || __CPROVER_r_ok(msg, msglen)))
-__CPROVER_assigns(*e, verif_c17_bad, c17_e)
-__CPROVER_ensures(scalar_ok(e) && SC_EQ(c17_e, *e))
-__CPROVER_ensures(verif_c17_bad == ((__CPROVER_old(verif_c17_bad) != 0 || !C17_CH_OK(r32, msg, msglen, pubkey32)) ? 1 : 0))
+__CPROVER_assigns(*e, verif_c17_bad, c17_e, c17_phase)
+__CPROVER_ensures(scalar_ok(e) && SC_EQ(c17_e, *e) && c17_phase == 1)
+__CPROVER_ensures(C17_UPD(verif_c17_bad, !C17_CH_OK(r32, msg, msglen, pubkey32)))
 ;
-#endif
+/* two calls per signature: phase 1 (after challenge): e_i * P_i;  phase 2 (after R_i + e_i P_i): z_i * T_i, skipped for i = 0 */
+#define C17_EM1_OK (na != NULL && ng == NULL && SC_EQ(*na, c17_e) && C17_K < c17_n && a->infinity == 0 && fval(&a->z) == 1 && \
+    fval(&a->x) == c17_le256(c17_pks[C17_K].data) && fval(&a->y) == c17_le256(c17_pks[C17_K].data + 32))
+#define C17_EM2_OK (na != NULL && ng == NULL && C17_K != 0 && sval(na) == c17_redn(be256(c17_dig)))
+#define C17_SVAL_OLD(a) (W(__CPROVER_old((a)->d[0])) | (W(__CPROVER_old((a)->d[1])) << 64) | (W(__CPROVER_old((a)->d[2])) << 128) | (W(__CPROVER_old((a)->d[3])) << 192))
+static void secp256k1_ecmult(secp256k1_gej *r, const secp256k1_gej *a, const secp256k1_scalar *na, const secp256k1_scalar *ng)
+__CPROVER_requires(__CPROVER_w_ok(r, sizeof(*r)) && __CPROVER_r_ok(a, sizeof(*a)) && gej_ok(a))
+__CPROVER_requires((na == NULL || (__CPROVER_r_ok(na, sizeof(*na)) && scalar_ok(na))) && (ng == NULL || (__CPROVER_r_ok(ng, sizeof(*ng)) && scalar_ok(ng))))
+__CPROVER_assigns(*r, verif_c17_bad, c17_phase)
+__CPROVER_ensures(gej_ok(r))
+__CPROVER_ensures(c17_phase == (__CPROVER_old(c17_phase) == 1 ? 2 : 4))
+__CPROVER_ensures(C17_UPD(verif_c17_bad, !((__CPROVER_old(c17_phase) == 1 && C17_EM1_OK) || (__CPROVER_old(c17_phase) == 3 && C17_EM2_OK))))
+;
 static void secp256k1_gej_add_ge_var(secp256k1_gej *r, const secp256k1_gej *a, const secp256k1_ge *b, secp256k1_fe *rzr)
 __CPROVER_requires(__CPROVER_w_ok(r, sizeof(*r)) && __CPROVER_r_ok(a, sizeof(*a)) && __CPROVER_r_ok(b, sizeof(*b)) && rzr == NULL && gej_ok(a) && ge_ok(b))
-__CPROVER_assigns(*r)
-__CPROVER_ensures(gej_ok(r))
+__CPROVER_assigns(*r, verif_c17_bad, c17_phase)
+__CPROVER_ensures(gej_ok(r) && c17_phase == 3)
+__CPROVER_ensures(C17_UPD(verif_c17_bad, __CPROVER_old(c17_phase) != 2))
 ;
 /* the accumulator operand carries no precondition beyond validity (the loop contract does not track its limbs) */
 static void secp256k1_gej_add_var(secp256k1_gej *r, const secp256k1_gej *a, const secp256k1_gej *b, secp256k1_fe *rzr)
 __CPROVER_requires(__CPROVER_w_ok(r, sizeof(*r)) && __CPROVER_r_ok(a, sizeof(*a)) && __CPROVER_r_ok(b, sizeof(*b)) && rzr == NULL)
-__CPROVER_assigns(*r, c17_last_inf)
-__CPROVER_ensures(gej_ok(r) && c17_last_inf == r->infinity)
+__CPROVER_assigns(*r, c17_last_inf, c17_phase, verif_c17_bad)
+__CPROVER_ensures(gej_ok(r) && c17_last_inf == r->infinity && c17_phase == 0)
+/* inside the loop (before the one ecmult_gen call): rhs += T_0 directly, rhs += z_i*T_i for i != 0 */
+__CPROVER_ensures(C17_UPD(verif_c17_bad, g_gen_n == 0 && !((__CPROVER_old(c17_phase) == 3 && C17_K == 0) || (__CPROVER_old(c17_phase) == 4 && C17_K != 0))))
+;
+/* inc_aggregate: s_i * z_i for i != 0 */
+#define C17_MUL_OK (verif_c17_fin_n >= 1 && c17_nb + C17_K != 0 && C17_K < c17_n && sval(b) == c17_redn(be256(c17_dig)) && C17_SVAL_OLD(a) == c17_redn(be256(c17_sigs + 64 * C17_K + 32)))
+static void secp256k1_scalar_mul(secp256k1_scalar *r, const secp256k1_scalar *a, const secp256k1_scalar *b)
+__CPROVER_requires(__CPROVER_w_ok(r, sizeof(*r)) && __CPROVER_r_ok(a, sizeof(*a)) && __CPROVER_r_ok(b, sizeof(*b)))
+__CPROVER_requires(scalar_ok(a) && scalar_ok(b))
+__CPROVER_assigns(*r, verif_c17_bad)
+__CPROVER_ensures(scalar_ok(r))
+__CPROVER_ensures(C17_UPD(verif_c17_bad, !C17_MUL_OK))
 ;
 #endif
